@@ -132,7 +132,7 @@ CHECKS = {
             'trusted: canonicalisation (prefix, name->function map) - sound because a registry\'s future depends only on that map and its prefix',
             'DESIGN.md section 5, C15'),
     'C16': ('exhaustive enumeration of ordered method sets x annotation bundles x extractor stacks x document kinds with repeated '
-            'generation on the real spec generators; invariants + differential (method documented alone, fresh generator) + official meta-schemas; documents fetched from the real integrations and every documented path#method replayed against the same application',
+            'generation on the real spec generators; invariants + differential (method documented alone, fresh generator) + official meta-schemas; documents fetched from the real integrations and every documented path#method replayed against the same application; preemption-bounded exploration of two threads generating from one specification object',
             'Ordered sets of 1..2/3 atoms from a 16-atom core (thorough: pairs from a 61-atom product) x 6 extractor stacks x {OpenAPI 3.1, '
             '3.0, OpenRPC} x endpoint prefixes / several endpoints x status-map / global-prefix variants x 2-3 generations, re-used '
             'specification objects (A, B, A, A+B, B), late error classes, aliases: JSON-encodable, valid against the vendored meta-schema '
@@ -148,7 +148,7 @@ CHECKS = {
             'trusted: the resolver of $ref inside the generated document (props/c17.py)',
             'DESIGN.md section 5, C17'),
     'C18': ('exhaustive enumeration of requests (media type x body x status function x path / endpoint) against the real HTTP integrations '
-            'in-process, differential against a twin dispatcher called directly and across integrations; exhaustive request sequences of bounded length on one long-lived application, each reply compared with a fresh application',
+            'in-process, differential against a twin dispatcher called directly and across integrations; exhaustive request sequences of bounded length on one long-lived application, each reply compared with a fresh application; CHESS-style preemption-bounded exploration of two threads posting to one application',
             '{aiohttp, flask, werkzeug, werkzeug via wsgi_app} x 26 media types x 15 bodies x 4 status-by-error functions x 3 paths, '
             'additional endpoints (plain, sub-application / blueprint, child application, main endpoint among siblings): documented types '
             'are relayed with the dispatcher\'s document, JSON content type and status_by_error(codes); nothing -> empty 200; other types -> '
@@ -156,7 +156,7 @@ CHECKS = {
             'trusted: werkzeug / flask test clients, aiohttp make_mocked_request + Application._handle (a raised HTTPException is the response)',
             'DESIGN.md section 5, C18'),
     'C19': ('stateless exploration of the complete tree of per-attempt outcomes incl. decode / identity failures and BaseException '
-            'on the real sync/async client; invariant on the tracer event log of every execution; CHESS-style preemption-bounded exploration of two threads sharing one traced client',
+            'on the real sync/async client; invariant on the tracer event log of every execution; CHESS-style preemption-bounded exploration of two threads sharing one traced client; exhaustive completion orders of concurrent asynchronous attempts on a virtual event loop',
             'retry strategies of 0..3/4 attempts x 0..3 tracers (full, begin/end only, super-chaining, equal-but-distinct) x 4 request kinds x '
             'default/supplied trace context x sync/async x call / send / client(...) / proxy, also from inside an except block: every attempt '
             'has, for every tracer in order, one begin and exactly one completion (end with the attempt\'s response or error with the very '
